@@ -287,6 +287,18 @@ func (ex *Exec) applyContract(fr *Frame, st *State, fc *FuncContract, names []st
 		}
 		ex.oblige("pre", lbl, st, g, p, nil)
 	}
+	// recursion: the measure decreases
+	if fc == ex.fc && fc.Decreases != nil && ex.entryMeasure.S != "" {
+		env := mkEnv(st, st)
+		m := env.evalInt(fc.Decreases.Expr)
+		var g Term
+		if ex.cx.mode == "bv" {
+			g = and(app(SBool, "bvult", m, ex.entryMeasure))
+		} else {
+			g = and(app(SBool, "<", m, ex.entryMeasure), app(SBool, "<=", intLit(0), ex.entryMeasure))
+		}
+		ex.oblige("decreases", "recursion", st, g, p, nil)
+	}
 	// havoc the modifies set
 	post := st.clone()
 	if !fc.HasModifies {
